@@ -235,7 +235,7 @@ def run_proc_watch(cmd, timeout=60, stall_s=12, cwd=None, env=None, repeat_marke
     if env:
         e.update(env)
     p = subprocess.Popen(cmd, stdin=subprocess.DEVNULL, stdout=subprocess.PIPE, stderr=subprocess.PIPE, env=e, cwd=cwd,
-                         start_new_session=True)
+                         start_new_session=True, preexec_fn=dst._die_with_parent)
     bufs = {1: [], 2: []}
 
     def pump(f, k):
